@@ -62,6 +62,40 @@ impl Fin for Imp {
 impl Other for Imp { fn other(&self) -> u64 { 5 } }
 cglue_impl_group!(Imp, FinGroup, { Other });
 
+/// an instance whose destructor needs the context (think: code that lives in the library the
+/// context keeps loaded): its Drop records whether the context was still alive
+static DEP_DROPS: Mutex<Vec<(u64, usize)>> = Mutex::new(Vec::new());
+pub struct Dep(u64, Weak<Lib>);
+impl Drop for Dep {
+    fn drop(&mut self) {
+        DEP_DROPS.lock().unwrap().push((self.0, self.1.strong_count()));
+    }
+}
+impl Fin for Dep {
+    fn peek(&self) -> u64 { self.0 }
+    fn fin_val(self) -> u64 { self.0 + 1 }
+    fn fin_unit(self) {}
+    fn fin_res(self, fail: bool) -> Result<u64, GErr> { if fail { Err(GErr(7)) } else { Ok(self.0) } }
+}
+impl Other for Dep { fn other(&self) -> u64 { 6 } }
+cglue_impl_group!(Dep, FinGroup, { Other });
+
+fn dep_report(case: &str, id: u64, viol: &mut u64, n: &mut u64) {
+    *n += 1;
+    let d = DEP_DROPS.lock().unwrap();
+    match d.iter().filter(|x| x.0 == id).collect::<Vec<_>>().as_slice() {
+        [(_, alive)] if *alive >= 1 => {}
+        [(_, _)] => {
+            println!("{{\"k\":\"violation\",\"sig\":\"C07:context-released-before-instance-destructor\",\"detail\":\"{}: the object was the last holder of the context; when its instance was destroyed the context was already gone\",\"replay\":\"{}\"}}", case, case);
+            *viol += 1;
+        }
+        other => {
+            println!("{{\"k\":\"violation\",\"sig\":\"C07:harness\",\"detail\":\"{}: instance destroyed {} times\",\"replay\":\"{}\"}}", case, other.len(), case);
+            *viol += 1;
+        }
+    }
+}
+
 #[inline(never)]
 fn cglue_wrapped_canary(l: Arc<Lib>) {
     drop(l);
@@ -127,6 +161,26 @@ fn main() {
     case!("group into+CArc ctx: fin_res Err", |l: Arc<Lib>| group_obj!((Imp(1), CArc::<Lib>::from(l)) as FinGroup), |o: FinGroupCtxBox<CArc<Lib>>| { let c = into!(o impl Other).unwrap(); let _ = c.fin_res(true); });
     // sanity of the harness itself: dropping (not consuming) releases the context in our frame
     case!("object+CArc ctx: plain drop", |l: Arc<Lib>| trait_obj!((Imp(1), CArc::<Lib>::from(l)) as Fin), |o: FinCtxBox<CArc<Lib>>| { let _ = o.peek(); drop(o); });
+    // the context must outlive the instance's destructor when the object is its last holder
+    macro_rules! dcase {
+        ($name:expr, $mk:expr, $call:expr) => {{
+            id += 1;
+            let lib = Arc::new(Lib(id));
+            let dep = Dep(id, Arc::downgrade(&lib));
+            let obj = $mk(dep, lib);
+            $call(obj);
+            dep_report($name, id, &mut viol, &mut n);
+        }};
+    }
+    dcase!("drop of object+CArc ctx", |d: Dep, l: Arc<Lib>| trait_obj!((d, CArc::<Lib>::from(l)) as Fin), |o: FinCtxBox<CArc<Lib>>| { let _ = o.peek(); drop(o); });
+    dcase!("drop of object+plain ctx", |d: Dep, l: Arc<Lib>| trait_obj!((d, PlainCtx(l)) as Fin), |o: FinCtxBox<PlainCtx>| { drop(o); });
+    dcase!("drop of group+CArc ctx", |d: Dep, l: Arc<Lib>| group_obj!((d, CArc::<Lib>::from(l)) as FinGroup), |o: FinGroupCtxBox<CArc<Lib>>| { drop(o); });
+    dcase!("drop of cast group+CArc ctx", |d: Dep, l: Arc<Lib>| group_obj!((d, CArc::<Lib>::from(l)) as FinGroup), |o: FinGroupCtxBox<CArc<Lib>>| { let c = cast!(o impl Other).unwrap(); drop(c); });
+    dcase!("drop of final group+CArc ctx", |d: Dep, l: Arc<Lib>| group_obj!((d, CArc::<Lib>::from(l)) as FinGroup), |o: FinGroupCtxBox<CArc<Lib>>| { let c = into!(o impl Other).unwrap(); drop(c); });
+    dcase!("failing cast of group+CArc ctx", |d: Dep, l: Arc<Lib>| group_obj!((d, CArc::<Lib>::from(l)) as FinGroup), |o: FinGroupCtxBox<CArc<Lib>>| { let o = o.into_opaque(); drop(o); });
+    dcase!("consumed object+CArc ctx: fin_val", |d: Dep, l: Arc<Lib>| trait_obj!((d, CArc::<Lib>::from(l)) as Fin), |o: FinCtxBox<CArc<Lib>>| { let _ = o.fin_val(); });
+    dcase!("consumed object+CArc ctx: fin_res Err", |d: Dep, l: Arc<Lib>| trait_obj!((d, CArc::<Lib>::from(l)) as Fin), |o: FinCtxBox<CArc<Lib>>| { let _ = o.fin_res(true); });
+    dcase!("consumed group+plain ctx: fin_unit", |d: Dep, l: Arc<Lib>| group_obj!((d, PlainCtx(l)) as FinGroup), |o: FinGroupCtxBox<PlainCtx>| { o.fin_unit(); });
     println!("{{\"k\":\"sample\",\"what\":\"C07 guard case\",\"case\":\"object is the only holder of the context; fin_val(self) -> u64 is called; the payload's Drop captures a backtrace; a cglue_wrapped_* frame on it means the context died inside the consuming call\"}}");
     println!("{{\"k\":\"stat\",\"guard_cases\":{},\"guard_violations\":{},\"canary_wrapper_frame_seen\":{},\"drops_seen_by_caller_side_decoder\":{},\"drops_before_that_call\":{}}}", n, viol, canary as u64, if at_decode == u64::MAX { 0 } else { at_decode }, d0);
     println!("{{\"k\":\"done\"}}");
